@@ -90,6 +90,7 @@ type Stats struct {
 
 // Run is one invocation of a harness command.
 type Run struct {
+	MaxSec int // wall budget for executing cases (0 = none)
 	Tier   string
 	Seed   uint64
 	Out    string
@@ -112,6 +113,7 @@ func Start(rule string) *Run {
 	out := flag.String("out", "", "output directory")
 	replay := flag.String("replay", "", "run exactly this case line")
 	replayFile := flag.String("replayfile", "", "run exactly the case lines of this file")
+	maxSec := flag.Int("maxsec", 0, "wall budget in seconds for executing cases: cases are then run in a seeded random order and those not reached are dropped (0 = run all, in order)")
 	flag.Parse()
 	if *out == "" {
 		fmt.Fprintln(os.Stderr, "missing -out")
@@ -120,7 +122,7 @@ func Start(rule string) *Run {
 	if err := os.MkdirAll(*out, 0o755); err != nil {
 		panic(err)
 	}
-	r := &Run{Tier: *tier, Seed: *seed, Out: *out, Replay: *replay, Rng: NewRng(*seed), seen: map[string]bool{}, start: time.Now()}
+	r := &Run{Tier: *tier, Seed: *seed, Out: *out, Replay: *replay, Rng: NewRng(*seed), seen: map[string]bool{}, start: time.Now(), MaxSec: *maxSec}
 	r.Stats.Rule = rule
 	if *replay != "" {
 		r.ReplayCases = []string{*replay}
